@@ -28,6 +28,21 @@ var solvers = []solverSpec{
 	{"z3", func(f string, s int) []string { return []string{"z3", fmt.Sprintf("-T:%d", s), f} }},
 }
 
+// retrySolvers: the second round adds differently seeded z3 runs — a proof search that depends on quantifier
+// instantiation order is sensitive to harmless differences in the query; diversifying the seed makes the verdict on
+// an unchanged obligation robust instead of leaving it to one search order.
+var retrySolvers = append(append([]solverSpec{}, solvers...),
+	solverSpec{"z3-new/s7", func(f string, s int) []string {
+		return []string{"z3-new", fmt.Sprintf("-T:%d", s), "smt.random_seed=7", "sat.random_seed=7", f}
+	}},
+	solverSpec{"z3-new/s23", func(f string, s int) []string {
+		return []string{"z3-new", fmt.Sprintf("-T:%d", s), "smt.random_seed=23", "sat.random_seed=23", "smt.phase_selection=5", f}
+	}},
+	solverSpec{"z3/s11", func(f string, s int) []string {
+		return []string{"z3", fmt.Sprintf("-T:%d", s), "smt.random_seed=11", f}
+	}},
+)
+
 type solveResult struct {
 	status string // unsat sat unknown timeout error
 	out    string
@@ -191,6 +206,10 @@ func solveOne(o *Obligation, opt SolveOpts, idx int) {
 	// The first conclusive answer (unsat, or sat with a model) wins and the rest are cancelled.
 	ctx, cancel := context.WithCancel(context.Background())
 	defer cancel()
+	solvers := solvers
+	if opt.Retry {
+		solvers = retrySolvers
+	}
 	ch := make(chan solveResult, len(solvers))
 	start := func(sp solverSpec) { go func() { ch <- runSolverCtx(ctx, sp, file, opt.Secs) }() }
 	start(solvers[0])
